@@ -7,11 +7,11 @@ META = {
     'technique': 'Coq invariants over all interleavings of a step-level model (one step per atomic access of state_ / per access of obj_, the move of obj_ split at '
                  "T's move constructor) + lockstep replay of the same schedules on the real hooked class under a cooperative scheduler, in the C++14 (detail::OpResult) "
                  'and the C++17 (std::optional) build',
-    'text': 'Kernel-checked for any number of threads, any program over requestUpdate/updateRequested/tryEmplaceUpdate/getUpdate and any schedule: with at most one consumer '
-            'thread (Gallina predicate single_consumer) no value is returned twice, every value-returning getUpdate directly follows the emplacement of that value which '
-            'directly follows the latest successful request, producers and the consumer exclude each other (C24_holds_except and parts); for every program (any number of '
-            'consumers) emplacements never outnumber requests and delivered values were emplaced.  C24_refuted proves the at-most-once property FALSE for two concurrent '
-            'consumers in both OpResult flavours (known finding two-consumers-double-delivery, replayed deterministically on the real class in both builds on every run).  '
+    'text': 'Kernel-checked for any number of requester, producer and consumer threads, any program over requestUpdate/updateRequested/tryEmplaceUpdate/getUpdate and any '
+            'schedule (C24_holds = the full statement): no value is returned twice, every value-returning getUpdate directly follows the emplacement of that value which '
+            'directly follows the latest successful request, every emplacement directly follows a successful request; at most one thread (producer or consumer) holds '
+            'kUpdating.  The model is the code after the repair "fix: AsyncRequest::getUpdate must claim the update before moving it" (before it two concurrent consumers '
+            'received the same value; the former witness is a regression Example in Coq and the first case of every run, in both builds).  '
             'The model is tied to the code by running generated programs under generated schedules on the real class (hooks before every access of state_/obj_) and '
             'comparing step trace, results, final state_ and obj_ with the model evaluated in Coq; the executable property (no tag returned twice, no tag out of thin air, and -- on the event order '
             "reconstructed from the implementation's own trace and results -- every emplacement after a request step, every delivery right after the emplacement of that value) "
@@ -24,13 +24,12 @@ ASSUMPTIONS = [
     'sequentially consistent interleaving of the accesses of state_ and obj_ at the granularity of the hooks; compare_exchange_strong never fails spuriously',
     "the move of obj_ is modelled as two steps (engaged test + payload read; then T's move constructor returns and detail::OpResult clears the source): finer-grained "
     'data races inside T or OpResult are not modelled',
-    'payload = integer tag that survives a move unchanged (a T that empties itself on move would hand the second consumer an engaged husk instead of the same tag)',
+    'payload = integer tag that survives a move unchanged',
 ]
 
 SITES = ['start', 'ar.request.cas', 'ar.updateRequested.load', 'ar.tryEmplace.cas', 'ar.tryEmplace.emplace', 'ar.tryEmplace.store',
-         'ar.getUpdate.load', 'ar.getUpdate.move', 'ar.getUpdate.store', 'T.moved']
+         'ar.getUpdate.cas', 'ar.getUpdate.move', 'ar.getUpdate.store', 'T.moved']
 TAGS = {'updateRequested': 1, 'emplace': 2, 'get': 3, 'getnone': 4}
-KEY = 'two-consumers-double-delivery'
 COST = {'R': 1, 'U': 1, 'E': 3, 'G': 4}
 
 
@@ -126,11 +125,11 @@ def run(ctx):
     exe17 = dv.build_harness('h_asyncreq17', ['h_asyncreq.cpp'], need_lib=False, extra_flags=['-std=c++17'])
     ctx.phase('build')
     r = ctx.rng
-    # 1. deterministic witness of the known finding (C24_refuted), replayed on the real class in both builds
+    # 1. regression: the former witness of the two-consumer double delivery (fixed in /repo), replayed on the real class in both builds
     wit_progs = [[('R',), ('E', 7)], [('G',)], [('G',)]]
     wit_sched = [0, 0, 0, 0, 0, 0, 1, 0, 1, 0, 1, 0, 1, 0, 0] + [0] * 8
     wits = [{'keep': k, 'budget': 20, 'progs': wit_progs, 'sched': wit_sched} for k in (False, True)]
-    n = 450 if ctx.quick else 9000
+    n = 400 if ctx.quick else 9000
     cases = wits + [gen_case(r) for _ in range(n)]
     outs = [None] * len(cases)
     for keep, exe in ((False, exe14), (True, exe17)):
@@ -160,36 +159,22 @@ def run(ctx):
         ctx.broken.append('correspondence L(C24): the model no longer evaluates')
         return
     hist = {}
-    dd = {14: 0, 17: 0}
     for i, (v, (c, p, o)) in enumerate(zip(verdicts, kept)):
         hist[v] = hist.get(v, 0) + 1
         std = 17 if c['keep'] else 14
         replay = {'case': line_of(c), 'build': 'c++%d' % std, 'output': o,
                   'cmd': 'echo "<case>" | build/harness/h_asyncreq%s-*' % ('17' if c['keep'] else '')}
-        if v == 6:
-            dd[std] += 1
-            ctx.violation('value delivered twice with concurrent consumers: ' + o[:300], dict(replay, finding_key=KEY))
-        elif v == 4:
-            ctx.violation('emplace/get order broken with concurrent consumers (emplacement without a fresh request, or a stale / not-yet-published value returned): ' + o[:300],
-                          dict(replay, finding_key=KEY))
-        elif v == 5:
-            ctx.violation('value delivered twice with concurrent consumers: ' + o[:300], dict(replay, finding_key=KEY))
-            ctx.broken.append('correspondence L(C24): real trace differs from the model on ' + line_of(c)[:160] + ' -> ' + o[:200])
-        elif v == 2:
-            ctx.violation('property fails on the real class although at most one thread consumes (a value returned twice / never emplaced / not emplaced since the latest '
-                          'request, or tryEmplaceUpdate succeeded without a request): %s -> %s' % (line_of(c)[:200], o[:300]), replay)
+        if v == 2:
+            ctx.violation('AsyncRequest property fails on the real class [c++%d build] (a value returned twice / never emplaced / not emplaced since the latest request, or '
+                          'tryEmplaceUpdate succeeded without a request): %s -> %s' % (std, line_of(c)[:200], o[:300]), replay)
         elif v == 1:
             ctx.broken.append('correspondence L(C24) [c++%d build]: real trace differs from the model on %s -> %s' % (std, line_of(c)[:160], o[:200]))
-    ctx.cov['verdict_histogram'] = {'agree': hist.get(0, 0), 'differ_property_holds': hist.get(1, 0), 'property_fails_outside_known_domain': hist.get(2, 0),
-                                    'double_delivery_known_domain_model_agrees': hist.get(6, 0), 'order_broken_known_domain_model_agrees': hist.get(4, 0),
-                                    'fails_in_known_domain_model_differs': hist.get(5, 0)}
-    ctx.cov['double_deliveries_by_build'] = {'c++14_OpResult': dd[14], 'c++17_optional': dd[17]}
-    ctx.cov['traces_validated_against_impl'] += hist.get(0, 0) + hist.get(4, 0) + hist.get(6, 0)
+    ctx.cov['verdict_histogram'] = {'agree': hist.get(0, 0), 'differ_property_holds': hist.get(1, 0), 'property_fails': hist.get(2, 0)}
+    ctx.cov['traces_validated_against_impl'] += hist.get(0, 0)
+    ctx.cov['regression_two_consumers'] = {'c++14': outs[0][outs[0].find('| results'):][:80], 'c++17': outs[1][outs[1].find('| results'):][:80]}
     ctx.cov['cases_by_consumer_threads'] = {str(k): sum(1 for c, _, _ in kept if min(n_consumers(c), 3) == k) for k in (0, 1, 2, 3)}
     ctx.cov['cases_with_delivery'] = sum(1 for _, p, _ in kept if any(tag == TAGS['get'] for rs in p['results'].values() for tag, v in rs))
     ctx.cov['status_histogram'] = {k: sum(1 for _, p, _ in kept if p['status'] == v) for k, v in (('done', 0), ('budget', 2))}
-    if len(verdicts) >= 2 and not (verdicts[0] == 6 and verdicts[1] == 6):
-        ctx.cov['known_finding_witness'] = 'no longer reproduces: verdicts %r' % (verdicts[:2],)
     ctx.sample({'case': line_of(cases[0])[:120], 'impl_c++14': outs[0][:400]})
     ctx.sample({'case': line_of(cases[1])[:120], 'impl_c++17': outs[1][:400]})
     ctx.sample({'case': line_of(cases[2])[:200], 'impl': outs[2][:300]})
